@@ -71,8 +71,9 @@ UrlsB == {Mk(HostH, <<"a">>), Mk(HostH, <<"a", "b">>), Mk(HostH, <<"c">>)}
 \* one dimension at a time: header variants with an empty query, query variants with no header
 HdrQryB == {<<hdr, {}>> : hdr \in {{}, {<<"x-key", "v1">>}, {<<"x-key", "V2">>}, {<<"x-key", "zz">>}}}
       \cup {<<{}, qry>> : qry \in {{<<"k", "1">>}, {<<"k", "2">>}}}
-TxnsB == {Req(u, meth, hq[1], hq[2]) : u \in UrlsB, meth \in {"GET", "POST", "HEAD"}, hq \in HdrQryB}
-    \cup {Resp(u, meth, st) : u \in UrlsB, meth \in {"GET", "POST", "HEAD"}, st \in {200, 500}}
+TxnsB == {Req(u, meth, hq[1], hq[2]) : u \in UrlsB, meth \in {"GET", "POST", "PROPFIND"}, hq \in HdrQryB}
+    \cup {Req(Mk(HostH, <<"a">>), "HEAD", {}, {})}
+    \cup {Resp(u, meth, st) : u \in UrlsB, meth \in {"GET", "POST", "PROPFIND"}, st \in {200, 500}}
 
 
 -------------------------------------------------------------------------------
